@@ -141,3 +141,25 @@ Proof.
   - intros j Hj. apply (lifted_axis_columnwise Q (ops_elem k) s x a c j R Hj).
   - reflexivity.
 Qed.
+
+(* rebin_axes_commute_in_shape: resizing axis 0 then axis 1 (the code's order) and axis 1 then axis 0 both give
+   exactly the requested shape [a; b] (the values may differ for integer dtypes, where every pass rounds) *)
+Definition has_shape2 {T} (y : list (list T)) (a b : Z) : Prop := lenZ y = a /\ Forall (fun r => lenZ r = b) y.
+
+Theorem rebin_axes_commute_in_shape (T : Type) (o : ops T) s (x : list (list T)) a b c :
+  rect c x -> x <> [] -> 0 <= a -> 0 <= b ->
+  has_shape2 (map (fun row => rebin_axis_spec o s row b) (rebin_axis_spec (ops_lift o) s x a)) a b /\
+  has_shape2 (rebin_axis_spec (ops_lift o) s (map (fun row => rebin_axis_spec o s row b) x) a) a b.
+Proof.
+  intros R Hne Ha Hb. split; split.
+  - unfold lenZ. rewrite map_length, rebin_axis_spec_length by lia. lia.
+  - apply Forall_forall. intros r Hr. apply in_map_iff in Hr. destruct Hr as [r0 [<- _]].
+    unfold lenZ. rewrite rebin_axis_spec_length by lia. lia.
+  - unfold lenZ. rewrite rebin_axis_spec_length by lia. lia.
+  - assert (R' : rect (Z.to_nat b) (map (fun row => rebin_axis_spec o s row b) x)).
+    { unfold rect. apply Forall_forall. intros r Hr. apply in_map_iff in Hr. destruct Hr as [r0 [<- _]].
+      apply rebin_axis_spec_length. lia. }
+    assert (N' : map (fun row => rebin_axis_spec o s row b) x <> []) by (destruct x; [congruence|discriminate]).
+    pose proof (lifted_axis_rect T o s _ a _ R' N') as R2. unfold rect in R2.
+    eapply Forall_impl; [|exact R2]. intros r Hr. cbv beta in Hr. unfold lenZ. rewrite Hr. lia.
+Qed.
